@@ -1895,6 +1895,10 @@ class Variogram(object):
         """
         # handle sparse matrix
         if isinstance(self.distance_matrix, sparse.spmatrix):
+            # the differences are formed explicitly below: do so in floating
+            # point, unsigned integer observations would wrap around
+            values = np.asarray(values, dtype=float)
+
             # get triangular distance matrices
             c = r = self.triangular_distance_matrix
 
